@@ -18,6 +18,10 @@ PKG_DOCS = {
     "zcvpkg_y": [TYPE("dupt", [K("k1")])],
     # implements an abstract type that the importing schema took over from a library schema (<import src>)
     "zcvpkg_l2": [TYPE("pl2", [K("k1")], implements="labs")],
+    # two components that import each other (whichever is asked for first reads the other on the way and is
+    # not read again when that one asks for it in turn)
+    "zcvpkg_p": [schemas.IMPORT("zcvpkg_q"), TYPE("pp1", [K("k1")], implements="abs1")],
+    "zcvpkg_q": [schemas.IMPORT("zcvpkg_p"), TYPE("pq1", [MK("m1")], implements="abs1")],
 }
 # library schemas named by <import src="package:<pkg>:<file>"/>: (package, file) -> type documents
 LIB_DOCS = {
@@ -62,9 +66,11 @@ def build(root):
 
 
 def abstract_packages():
-    """MCPackages: what %import <name> contributes, as the specification sees it."""
+    """MCPackages: what %import <name> contributes, as the specification sees it: the components it imports in
+    turn (read first), the types it defines itself, the implementers it adds."""
     out = {}
-    for name, types in PKG_DOCS.items():
+    for name, docs in PKG_DOCS.items():
+        types = [t for t in docs if "import" not in t]
         # expand relative to a schema that declares the abstract types the component refers to
         doc = schemas.SCHEMA(types=list(CONTEXT) + types)
         rec = schemas.for_tla(schemas.expand(doc))
@@ -73,7 +79,8 @@ def abstract_packages():
         for t in types:
             if t.get("implements"):
                 impl.setdefault(t["implements"], set()).add(t["name"])
-        out[name] = {"ok": True, "types": tys, "impl": impl or {"~none~": set()}}
+        out[name] = {"ok": True, "types": tys, "impl": impl or {"~none~": set()},
+                     "imports": [t["import"] for t in docs if "import" in t]}
     for name in NOT_OK:
         out[name] = {"ok": False}
     return out
